@@ -152,7 +152,13 @@ func (m *maxDifferenceWatermarkGenerator) Run(ctx execution.ExecutionContext, pr
 			}
 		}
 
-		curTimeValueRoundedDown := time.Unix(0, record.Values[m.timeFieldIndex].Time.UnixNano()/int64(resolution.Duration)*int64(resolution.Duration))
+		curTimeValueUnixNano := record.Values[m.timeFieldIndex].Time.UnixNano()
+		curTimeValueResolutionUnits := curTimeValueUnixNano / int64(resolution.Duration)
+		if curTimeValueUnixNano%int64(resolution.Duration) < 0 {
+			// Integer division truncates towards zero, which would round times before 1970 up, not down.
+			curTimeValueResolutionUnits--
+		}
+		curTimeValueRoundedDown := time.Unix(0, curTimeValueResolutionUnits*int64(resolution.Duration))
 
 		if curTimeValueRoundedDown.After(maxValue) {
 			maxValue = curTimeValueRoundedDown
